@@ -968,3 +968,184 @@ def rt_pok_forms_bound(req):
 
 
 RT['pok_forms_bound'] = rt_pok_forms_bound
+
+
+def rt_cycle_reload(req):
+    """C07: (a) `__wrapped__` cycles of length two among functions that forward *args / **kwargs (hand-made, or functools.wraps
+    plus one assignment): inspect.signature raises ValueError, so does every retrieval function, and the attributes are left
+    as they were; (b) a function whose `__code__` (and defaults) is replaced between two retrievals — what hot reloaders do —
+    is described by its definition NOW: same answer as a fresh function with that code, and only narrowing of it"""
+    import functools
+    import types
+    import sigtools
+    from sigtools import signatures
+    from . import progs
+    problems = []
+    src = ('import functools\n'
+           'def target(a, b=2): return a\n'
+           'def impl(*args, **kwargs):\n    return target(*args, **kwargs)\n'
+           'def api(*args, **kwargs):\n    return target(*args, **kwargs)\n'
+           'api.__wrapped__ = impl\nimpl.__wrapped__ = api\n'
+           'def impl2(*args, **kwargs):\n    return target(*args, **kwargs)\n'
+           '@functools.wraps(impl2)\ndef api2(*args, **kwargs):\n    return target(*args, **kwargs)\n'
+           'impl2.__wrapped__ = api2\n'
+           'def impl3(x: int, *args, **kwargs) -> int:\n    return target(*args, **kwargs)\n'
+           'def api3(y: str, *args, **kwargs) -> str:\n    return target(*args, **kwargs)\n'
+           'api3.__wrapped__ = impl3\nimpl3.__wrapped__ = api3\n'
+           'def backend(host, port=80): return host\n'
+           'def backend2(request, retries, timeout): return request\n'
+           'def handler(*args, **kwargs):\n    return backend(*args, **kwargs)\n'
+           'def handler_new(request, *extra):\n    return backend2(request, *extra)\n'
+           'def handler_new_twin(request, *extra):\n    return backend2(request, *extra)\n'
+           'def plainf(a, b=1): return a\n'
+           'def plainf_new(c, *, d): return c\n')
+    mod, fname = progs.load_module(src)
+    try:
+        with warnings.catch_warnings():
+            warnings.simplefilter('ignore')
+            for nm in ('api', 'impl', 'api2', 'impl2', 'api3', 'impl3'):
+                f = getattr(mod, nm)
+                before = dict(vars(f))
+                ref = _try(lambda: str(inspect.signature(f)))
+                for gl, get in (('sigtools.signature', sigtools.signature), ('sigtools.signature(auto=False)', lambda o: sigtools.specifiers.signature(o, auto=False)),
+                                ('signatures.signature', signatures.signature)):
+                    got = _try(lambda: str(get(f)))
+                    if ref[0] == 'raised' and got != ref:
+                        problems.append('wrapped-cycle: inspect.signature(%s) raises %s for a __wrapped__ cycle of two forwarding functions, %s -> %s' % (nm, ref[1], gl, got))
+                    if dict(vars(f)) != before:
+                        problems.append('wrapped-cycle: %s(%s) changed the attributes of the function' % (gl, nm))
+            for old, new, twin in (('handler', 'handler_new', 'handler_new_twin'), ('plainf', 'plainf_new', 'plainf_new')):
+                f = getattr(mod, old)
+                for auto in (True, False):
+                    first = _try(lambda: str(sigtools.specifiers.signature(f, auto=auto)))
+                saved = (f.__code__, f.__defaults__, f.__kwdefaults__)
+                n = getattr(mod, new)
+                f.__code__, f.__defaults__, f.__kwdefaults__ = n.__code__, n.__defaults__, n.__kwdefaults__
+                try:
+                    for auto in (True, False):
+                        got = _try(lambda: str(sigtools.specifiers.signature(f, auto=auto)))
+                        want = _try(lambda: str(sigtools.specifiers.signature(getattr(mod, twin), auto=auto)))
+                        if got != want:
+                            problems.append('code-replaced: after %s.__code__ = %s.__code__, sigtools.signature(%s, auto=%s) = %s; a function defined with that code gives %s (first retrieval: %s)' % (
+                                old, new, old, auto, got, want, first))
+                finally:
+                    f.__code__, f.__defaults__, f.__kwdefaults__ = saved
+    finally:
+        progs.unload(fname)
+    return ('ok', tuple(problems[:5]), 'cycle_reload')
+
+
+RT['cycle_reload'] = rt_cycle_reload
+
+
+_SELF_FWD = r'''
+import sys, inspect
+sys.path.insert(0, sys.argv[1])
+import sigtools
+from sigtools import modifiers
+@modifiers.kwoargs('k')
+def f(k=None, *args, **kwargs):
+    return f(*args, **kwargs)
+@modifiers.posoargs('p')
+def g(p, *args, **kwargs):
+    return h(*args, **kwargs)
+@modifiers.autokwoargs
+def h(q, flag=False, *args, **kwargs):
+    return g(q, *args, **kwargs)
+class C:
+    @modifiers.kwoargs('k')
+    def m(self, k=None, *args, **kwargs):
+        return self.m(*args, **kwargs)
+for label, o in (('f', f), ('g', g), ('h', h), ('C().m', C().m)):
+    print(label, '|', inspect.signature(o), '|', sigtools.signature(o), flush=True)
+'''
+
+
+def rt_self_forwarding_hint(req):
+    """C07 (totality): a modifiers-decorated function that forwards to itself, directly or through another decorated function:
+    sigtools.signature answers (what inspect.signature answers).  Run in a child process under a time limit: on the code
+    before repair D88 the retrieval does not return."""
+    import subprocess
+    import sys
+    import tempfile
+    import os
+    from . import core
+    problems = []
+    with tempfile.NamedTemporaryFile('w', suffix='_selffwd.py', delete=False) as fh:
+        fh.write(_SELF_FWD)
+        path = fh.name
+    try:
+        try:
+            r = subprocess.run([sys.executable, '-W', 'ignore', path, core.REPO], capture_output=True, text=True, timeout=25, stdin=subprocess.DEVNULL)
+            lines = [l.split(' | ') for l in r.stdout.strip().split('\n') if l]
+            if r.returncode != 0:
+                problems.append('self-forwarding-decorated: the retrieval raised: %s' % (r.stderr.strip().split('\n')[-1][:200],))
+            elif len(lines) != 4 or any(len(l) != 3 for l in lines) or any(l[1] != l[2] for l in lines if l[0] in ('f', 'C().m')):
+                problems.append('self-forwarding-decorated: inspect / sigtools answers %r' % (lines,))
+        except subprocess.TimeoutExpired as e:
+            done = (e.stdout or b'').decode() if isinstance(e.stdout, bytes) else (e.stdout or '')
+            problems.append('self-forwarding-decorated: sigtools.signature of a kwoargs/posoargs/autokwoargs-decorated function that forwards to itself did not return within 25 s (answered so far: %r)' % (
+                done.strip().split('\n')[-1:],))
+    finally:
+        os.unlink(path)
+    return ('ok', tuple(problems), 'self_forwarding_hint')
+
+
+RT['self_forwarding_hint'] = rt_self_forwarding_hint
+
+
+class _NA(object):
+    def __eq__(self, other): return self
+    def __ne__(self, other): return self
+    def __bool__(self): raise TypeError('boolean value of NA is ambiguous')
+    __hash__ = object.__hash__
+    def __repr__(self): return 'NA'
+
+
+class _EqRaises(object):
+    def __eq__(self, other): raise TypeError('cannot compare')
+    __hash__ = object.__hash__
+    def __repr__(self): return 'EQRAISES'
+
+
+def rt_na_defaults(req):
+    """C15 / C07: defaults and annotations whose `==` gives an object without a truth value (pandas.NA, numpy arrays) or raises
+    TypeError are legal: merge / embed / forwards of signatures carrying them return or raise ValueError, and discovery over two
+    call sites whose callees carry them answers"""
+    import sigtools
+    from sigtools import signatures
+    from . import progs
+    problems = []
+    src = ('from %s import _NA, _EqRaises\nNA = _NA()\nER = _EqRaises()\n' % __name__ +
+           'def a(x=NA, *, k: NA = 1): pass\ndef b(x=0, *, k: ER = 1): pass\ndef c(x=ER, *, k: NA = 1): pass\ndef d(x=NA, *, k: NA = 2): pass\n'
+           'def either(flag, *args, **kwargs):\n    if flag:\n        return a(*args, **kwargs)\n    return b(*args, **kwargs)\n'
+           'def either2(flag, *args, **kwargs):\n    if flag:\n        return c(*args, **kwargs)\n    return a(*args, **kwargs)\n'
+           'def same(flag, *args, **kwargs):\n    if flag:\n        return a(*args, **kwargs)\n    return d(*args, **kwargs)\n'
+           'def outer(o, *args, **kwargs): pass\n')
+    mod, fname = progs.load_module(src)
+    try:
+        with warnings.catch_warnings():
+            warnings.simplefilter('ignore')
+            S = signatures.signature
+            for label, op in (('merge(a, b)', lambda: signatures.merge(S(mod.a), S(mod.b))), ('merge(a, c)', lambda: signatures.merge(S(mod.a), S(mod.c))),
+                              ('merge(a, a)', lambda: signatures.merge(S(mod.a), S(mod.a))), ('merge(a, d, b)', lambda: signatures.merge(S(mod.a), S(mod.d), S(mod.b))),
+                              ('embed(outer, a)', lambda: signatures.embed(S(mod.outer), S(mod.a))), ('forwards(outer, c)', lambda: signatures.forwards(S(mod.outer), S(mod.c))),
+                              ('mask(a, 0, "k")', lambda: signatures.mask(S(mod.a), 0, 'k'))):
+                r = _try(op)
+                if r[0] != 'ok' and r[1] != 'ValueError' and r[1] != 'IncompatibleSignatures':
+                    problems.append('truthless-eq: %s, with defaults / annotations whose == has no truth value or raises TypeError, raised %s' % (label, r[1]))
+            r = _try(lambda: signatures.merge(S(mod.a), S(mod.d)))
+            if r[0] == 'ok' and r[1].parameters['x'].default is not mod.NA:
+                problems.append('truthless-eq: merge(a, d): both have the very same default object for x, the result has %r' % (r[1].parameters['x'].default,))
+            for nm in ('either', 'either2', 'same'):
+                f = getattr(mod, nm)
+                i = _try(lambda: str(inspect.signature(f)))
+                r = _try(lambda: str(sigtools.signature(f)))
+                if i[0] == 'ok' and r[0] != 'ok':
+                    problems.append('retrieval-raises: sigtools.signature(%s) raised %s although inspect.signature succeeds (the two callees have defaults / annotations whose == has no truth value)' % (nm, r[1]))
+    finally:
+        progs.unload(fname)
+    return ('ok', tuple(problems[:5]), 'na_defaults')
+
+
+RT['na_defaults'] = rt_na_defaults
